@@ -8,13 +8,16 @@ Line-protocol driver of the C13 completeness-checking model.
     ac err <code>                            the Action Cache fails
     ac ok <size> <stdout D> <stderr D>       the Action Cache returns an ActionResult of <size> bytes
     file <D>                                 append an output file
+    acswap <size> <D>                        reads of the Action Cache after the first return the message with one more
+                                             output file <D> (an entry overwritten while the check is in flight)
     dir <tree D> <root D>                    append an output directory
     blob <h.s> <readErr|->                   start the blob the CAS serves for Get(<h.s>)
     ev dir <size> <nfiles> <D>...            append a Directory field to the last blob (files, then directories)
     ev skip | ev malformed                   append another field / a rejected field
     missing <h.s>...                         digests FindMissing reports missing
     fault <callIndex> <code>                 CAS call number <callIndex> of the Get fails with <code>
-    run                                      -> result | error <code>, then the CAS calls: fm[<sorted h.s,...>] get[h.s]
+    run                                      -> result | error <code>, ac:<reads of the Action Cache>, then the CAS calls:
+                                                fm[<sorted h.s,...>] get[h.s]
     runc <sliceErr|->                        the same through GetFromComposite with a slicer that yields the child (-) or fails
     visit <hex>                              -> the wire-level visitor model on raw bytes:
                                                 ok|error, then <num>:<offset>:<size> per field the visitor saw
@@ -31,6 +34,7 @@ structure S where
   blobs : List (Dg × Blob) := []
   missing : List Dg := []
   faults : List (Nat × Code) := []
+  swap : Option (Nat × OD) := none
 
 def splitDot (s : String) : List String :=
   let rec go (cs : List Char) (cur : List Char) (acc : List String) : List String :=
@@ -73,17 +77,19 @@ def runCase (s : S) (composite : Option (Option Code) := none) : String :=
   match s.ac with
   | none => "bad-op"
   | some ac =>
-    let reply : AcReply := match ac with
+    let first : AcReply := match ac with
       | .inl c => .err c
       | .inr (size, so, se) => .ok { size := size, files := s.files, dirs := s.dirs, stdout := so, stderr := se }
+    let later : AcReply := match ac, s.swap with
+      | .inr (_, so, se), some (size, d) =>
+        .ok { size := size, files := s.files ++ [d], dirs := s.dirs, stdout := so, stderr := se }
+      | _, _ => first
     let cas := scriptCas s.missing s.blobs s.faults
-    let (tr, out) := match composite with
-      | none => getAR s.cfg reply cas
-      | some sliceErr => getFromComposite s.cfg reply cas sliceErr
-    let o := match out with
+    let r := serve s.cfg (fun i => if i = 0 then first else later) cas composite
+    let o := match r.outcome with
       | .result => "result"
       | .error c => s!"error {c}"
-    " ".intercalate (o :: tr.map showCall)
+    " ".intercalate (o :: s!"ac:{r.acReads}" :: r.calls.map showCall)
 
 def addEv (s : S) (e : Ev) : S × String :=
   match s.blobs.reverse with
@@ -111,6 +117,10 @@ def step (s : S) (line : String) : S × String :=
     match od? d with
     | some d => ({ s with files := s.files ++ [d] }, "ok")
     | none => (s, "bad-op")
+  | ["acswap", z, d] =>
+    match nat? z, od? d with
+    | some z, some d => ({ s with swap := some (z, d) }, "ok")
+    | _, _ => (s, "bad-op")
   | ["dir", t, r] =>
     match od? t, od? r with
     | some t, some r => ({ s with dirs := s.dirs ++ [⟨t, r⟩] }, "ok")
